@@ -62,7 +62,32 @@ func Float64ListToDecimalIntList(dst []int64, src []float64) ([]int64, int16, er
 		}
 		decimals[i] = scaled
 	}
+	// The shortest decimal representation is exact, but the decoder's floating-point
+	// arithmetic (float64(v) * 10^e, or repeated division) is not always: mantissas above
+	// 2^53 and exponents outside the exactly representable powers of ten come back as a
+	// neighbouring value. Decode the result and refuse such lists, so that the caller falls
+	// back to its lossless plain encoding.
+	if !decodesToSameValues(decimals, minExp, src) {
+		return nil, 0, errCannotEncodeLossless
+	}
 	return decimals, minExp, nil
+}
+
+// decodesToSameValues reports whether DecimalIntListToFloat64List restores every value of src
+// (compared as float64, so the sign of zero is not significant).
+func decodesToSameValues(decimals []int64, exponent int16, src []float64) bool {
+	scratch := getFloat64Scratch(len(src))
+	defer putFloat64Scratch(scratch)
+	decoded, err := DecimalIntListToFloat64List(scratch[:0], decimals, exponent, len(decimals))
+	if err != nil || len(decoded) != len(src) {
+		return false
+	}
+	for i, f := range src {
+		if decoded[i] != f {
+			return false
+		}
+	}
+	return true
 }
 
 // DecimalIntListToFloat64List restores float64 values from scaled int64s using a decimal exponent.
@@ -241,6 +266,26 @@ func getInt16Scratch(n int) []int16 {
 func putInt16Scratch(s []int16) {
 	select {
 	case int16ScratchPool <- s:
+	default:
+	}
+}
+
+var float64ScratchPool = make(chan []float64, 32)
+
+func getFloat64Scratch(n int) []float64 {
+	select {
+	case s := <-float64ScratchPool:
+		if cap(s) >= n {
+			return s[:n]
+		}
+	default:
+	}
+	return make([]float64, n)
+}
+
+func putFloat64Scratch(s []float64) {
+	select {
+	case float64ScratchPool <- s:
 	default:
 	}
 }
